@@ -818,12 +818,22 @@ def _tables(ctx, prog):
                    key="C13.6:label-source")
         # one column per file: no keyed container of per-file frames
         keyed = [e for e in rg.of_kind("setitem")
-                 if e.data["value"] is rt[0].data["result"]]
+                 if any(x is rt[0].data["result"]
+                        for x in e.data["value"].walk())]
+        # (dict.update with entries taken from the frame is the same store)
+        keyed_u = [e for e in rg.of_kind("call")
+                   if e.data.get("name") == ".update" and
+                   e.data.get("mutates_recv") and e.data["args"] and
+                   any(x is rt[0].data["result"]
+                       for x in e.data["args"][0].walk())]
+        kby = fmt(keyed[0].data['index']) if keyed else (
+            "the frame's own column labels (dict.update)" if keyed_u else "")
+        keyed = keyed + keyed_u
         ctx.ob("C13.6", keyed[0] if keyed else g, not keyed,
                "per-file frames are not collected in a keyed container"
                if not keyed else
                f"per-file frames are stored in a container keyed by "
-               f"{fmt(keyed[0].data['index'])}: two files with the same "
+               f"{kby}: two files with the same "
                f"label collapse into one column, so a file is dropped and "
                f"the duplicate-label check of evo_res can never fire",
                key="C13.6:keyed-collection")
@@ -842,13 +852,21 @@ def _tables(ctx, prog):
             collected = pe_ is not None and not pe_[3] and \
                 pe_[0] is rt[0].data["result"] and \
                 rt[0].loops and pe_[1] == rt[0].loops[-1]
-            ok = (in_loop or collected) and (
-                tm.is_const(kw.get("axis", const(0)), "columns") or
-                tm.is_const(kw.get("axis", const(0)), 1))
+            axis_ok = tm.is_const(kw.get("axis", const(0)), "columns") or \
+                tm.is_const(kw.get("axis", const(0)), 1)
+            ok = (in_loop or collected) and axis_ok
+            if axis_ok and not ok:
+                ok = None       # concatenated column-wise, in a form this
+                #                 rule does not read as one frame per file
         if not keyed:
             if not cc:
                 ctx.undecidable("C13.6", g, "per-file frames are not "
                                 "combined with pandas.concat")
+            elif ok is None:
+                ctx.undecidable("C13.6", g, "per-file frames reach "
+                                "pandas.concat(axis='columns') through a "
+                                "collection this rule does not read as one "
+                                "frame per file in input order")
             else:
                 ctx.ob("C13.6", g, ok,
                        "one column per loaded file is concatenated in "
